@@ -130,6 +130,7 @@ void World::tr(const char* kind, uint64_t a, uint64_t b, uint64_t c) {
         snprintf(buf, sizeof buf, "%12.6f #%llu %s %llu %llu %llu", now / 1e9,
                  (unsigned long long)seq, kind, (unsigned long long)a, (unsigned long long)b, (unsigned long long)c);
         trace.emplace_back(buf);
+        if (live_trace) { fputs(buf, stderr); fputc('\n', stderr); }
     }
 }
 
@@ -141,6 +142,7 @@ void World::trs(const char* kind, const std::string& s, uint64_t a) {
         char buf[64];
         snprintf(buf, sizeof buf, "%12.6f #%llu %s %llu ", now / 1e9, (unsigned long long)seq, kind, (unsigned long long)a);
         trace.emplace_back(std::string(buf) + s);
+        if (live_trace) { fputs(trace.back().c_str(), stderr); fputc('\n', stderr); }
     }
 }
 
